@@ -57,8 +57,11 @@ func (d *Device) handleKEYEvent(ie *input.InputEvent) {
 			case config.Multinote:
 				d.Multinote()
 			}
-			d.invokeActionRelease(action)
-			delete(d.actionTracker, action)
+			// an action may be mapped to several keys: it is held until the last of them is released
+			if !d.actionHeldByKey(action) {
+				d.invokeActionRelease(action)
+				delete(d.actionTracker, action)
+			}
 		}
 	case noteOk:
 		switch ie.Event.Value {
